@@ -86,11 +86,17 @@ CLAIMED = {
             "the stream length; every strict prefix under three reader kinds must give an error or an identical forest; every sink failure offset and failing call must give an error; nothing may panic. "
             "A second search makes serialize/restore a transition followed by every later block and by Undo of pre-restore blocks, with the full observational oracle and a differential comparison against a "
             "twin that was never serialized.", "6 C13"),
-    "C15": ("sched", "exhaustive enumeration of all block histories (no de-duplication) x all memory limits vs the model's birth/death table",
+    "C15": ("cachesched", "exhaustive enumeration of all block histories (no de-duplication) x all memory limits vs the model's birth/death table",
             "Every block history with at most Nmax leaves ever added and at most D blocks is summarised to a fresh CachingScheduleTracker (reference proof targets, addition counts) and "
             "GenerateCachingSchedule is evaluated for every memory limit from 1 to leaves-ever-added+1; each scheduled position must be the insertion slot of a leaf added in that block and deleted later, "
             "ascending without repeats, never more than the limit alive at once, complete at unbounded memory, no panic. Six signatures of two genuine defects (emptied tree, overwritten empty root) are "
             "recorded as known findings KF-2..KF-7, attributed by signature (incl. a model-level trigger predicate) and exact case set; any other violation is reported.", "6 C15"),
+    "C12": ("sched", "stateless model checking: preemption-bounded DFS over schedules of the real MapPollard under a cooperative scheduler; separate free-running -race pass",
+            "300+ scenarios (prepared full/partial forests x writer programs Modify / Modify+Undo / Verify(remember) / VerifyPartialProof(remember) / Ingest / Prune / Read x one or two reader threads with one or "
+            "two queries from the eleven query kinds) are executed under a cooperative scheduler that owns the RWMutex (sync shim substituted at build time) and every Nodes/CachedLeaves access; every schedule with "
+            "at most 2 (thorough: 3) preemptions is explored; per execution: no panic, no deadlock, lock discipline at every map access, every query result equals the sequential result in a whole-block state "
+            "admissible for its interval with a consistent order, final state equals the sequential post-state. Unsynchronised accesses outside the seam are the job of the separate free-running -race pass "
+            "over the same scenario bodies.", "6 C12"),
 }
 
 NOT_YET = {
@@ -108,7 +114,7 @@ def main():
                 "quick_cmd": f"./check.sh {pid} quick",
                 "thorough_cmd": f"./check.sh {pid} thorough",
                 "evidence_file": f"/verif/evidence/{pid}.json",
-                "replay_cmd_template": "./build/vmc replay {path}",
+                "replay_cmd_template": "./replay.sh {path}",
                 "engine": eng,
                 "level_claimed": {"category": "model_checking", "text": text, "design_ref": "DESIGN.md section " + ref},
                 "level_note": TB,
@@ -121,7 +127,7 @@ def main():
         "setup_cmd": "./setup.sh",
         "hooks": {
             "guard": "verif",
-            "enable": "no source hooks are committed to /repo: instrumentation is injected at build time with `go build -overlay` (files under /verif/vmc/overlay, build tag verif); ordinary checks build /repo's working tree unmodified through a `replace` directive",
+            "enable": "no source hooks are committed to /repo: for C12 and C16 ./build.sh builds build/vmcx with `go build -tags verif -overlay` (adds /verif/vmc/overlay/zz_verif_export.go and the verifsync package to package utreexo and rewrites the sync import of a copy of /repo/mappollard.go regenerated on every run); all other checks build /repo's working tree unmodified through a `replace` directive",
             "baseline_off_cmd": BASELINE_OFF,
             "source_commits": [],
             "add_only": True,
@@ -141,8 +147,10 @@ def main():
              "kind_free_text": "exhaustive enumeration of proof-helper inputs per accumulator state against the reference forest"},
             {"name": "faults", "path": "/verif/vmc/mc/faults.go", "serves_properties": ["C13"],
              "kind_free_text": "fault enumeration: every reader chunking of a closed family, every truncation point, every sink failure offset/call, on every state of the explicit-state search; map iteration order owned by the harness"},
-            {"name": "sched", "path": "/verif/vmc/mc/schedule.go", "serves_properties": ["C15"],
+            {"name": "cachesched", "path": "/verif/vmc/mc/schedule.go", "serves_properties": ["C15"],
              "kind_free_text": "exhaustive enumeration of block histories and memory limits for the caching-schedule tracker against the model's leaf birth/death table"},
+            {"name": "sched", "path": "/verif/vmc/mc/sched_x.go", "serves_properties": ["C12"],
+             "kind_free_text": "hand-written controlled scheduler (verifsync shim + map wrappers as scheduling points) with iterative preemption-bounded depth-first search over schedules; brute-force linearizability decision against sequential replicas"},
             {"name": "geom", "path": "/verif/vmc/mc/geom.go", "serves_properties": ["C16"],
              "kind_free_text": "exhaustive enumeration of the argument space of the pure position functions (bounded heights exhaustive, boundary grid to 63 rows) against the reference geometry"},
         ],
